@@ -37,6 +37,7 @@ package msgpack
 // unmarkedness of the decoded bounds, which the decoder contracts do not carry).
 //@ func msgpack.unmarshalUnknownValue
 //@   tags C17
+//@   alloc_limit 1024
 //@   pre_as_panic
 //@   borrows path
 //@   requires (and (wf_ty ty) (not (has_opt ty)))
